@@ -9,8 +9,8 @@ ops
   t <µs>                                   → `o=<orig µs> n=<rewritten µs>` under the current cfg
   fn epoch <µs> | fn tots <x> | fn idiv <a> <b> | fn origin <hex> | fn its <amount> <unit>
   like <endOk> <clause>                    → `sql=<rewritten clause> o=<T/F/N per row> n=<…>`
-  urlcfg <col>                             → CASE text
-  url <hex|NULL>                           → `rep=<hex|NULL> ext=<hex|NULL> case=<hex|NULL>`
+  urlcfg <r|e> <col> <hex of original call> → CASE text (r = REGEXP_REPLACE form, e = REGEXP_EXTRACT form)
+  url <hex|NULL>                           → `rep= ext= caseR= caseE=` (hex|NULL each)
 -/
 open Arc.Proto Arc.C17
 
@@ -38,8 +38,16 @@ def newVal (c : Cfg) (t : Int) : Int :=
   else if c.three then rewrite3 semF Arc.Generated.C17.tb3Expr c.o c.s t
   else rewrite2 semF Arc.Generated.C17.tb2Expr c.s t
 
+def wrap64 (x : Int) : Int := (x + 2 ^ 63) % 2 ^ 64 - 2 ^ 63
+
 def argVal (name col : String) (o s : Int) : String :=
-  if name == "column" then col else if name == "originEpoch" then toString o else if name == "seconds" then toString s else "?"
+  if name == "column" then col else if name == "originEpoch" then toString o else if name == "seconds" then toString s
+  -- Go computes these two in int64 (wrapping); the values only matter for absurd widths (> 292 000 years),
+  -- which DuckDB rejects as interval literals — modelled for the text correspondence only.
+  else if name == "widthMicros" then toString (wrap64 (s * 1000000))
+  else if name == "originMicros" then
+    (if wrap64 (s * 1000000) == 0 then "?" else toString (Int.tmod (wrap64 (o * 1000000)) (wrap64 (s * 1000000))))
+  else "?"
 
 def render (fmt : String) (args : List String) (col : String) (o s : Int) : String :=
   renderFmt fmt.toList (args.map fun a => argVal a col o s)
@@ -156,8 +164,9 @@ def stepC17 (c : Cfg) (fs : List String) : Cfg × String :=
         let lw := if lw.toList.getLast? = some 's' then String.ofList lw.toList.dropLast else lw
         let W : Int := (n : Int) * ((TUnit.ofString? lw).map TUnit.secs).getD 0 * usPerSec
         let po := if three then parseOrigin origin else some (0, 0)
-        let kept := (col.toList.contains '(') || s == 0 || po.isNone
         let (osec, ofrac) := po.getD (0, 0)
+        -- `if originTime.Nanosecond() != 0 { return match }` (since c931596)
+        let kept := (col.toList.contains '(') || s == 0 || po.isNone || (three && ofrac != 0)
         let O : Int := if three then osec * usPerSec + ofrac else defaultOriginUs
         let c' : Cfg := { kept := kept, isDt := false, W := W, O := O, o := osec, s := s, three := three }
         (c', if kept then "keep"
@@ -194,13 +203,21 @@ def stepC17 (c : Cfg) (fs : List String) : Cfg × String :=
       let w' := optimize (endOk == "1") w
       (c, s!"sql={rWhere w'} o={truth w} n={truth w'}")
     | none => (c, "bad-op")
-  | ["urlcfg", col] =>
-    (c, renderFmt Arc.Generated.C17.caseFmt.toList (List.replicate Arc.Generated.C17.caseArgCount col))
+  | ["urlcfg", kind, col, callHex] =>
+    match unhexStr callHex with
+    | some call =>
+      let needSlash := kind == "r"
+      let like := if needSlash then Arc.Generated.C17.caseLikeTailSlash else Arc.Generated.C17.caseLikeTail
+      let guard := if needSlash then renderFmt Arc.Generated.C17.caseGuardFmt.toList [col] else ""
+      let arms := (Arc.Generated.C17.casePrefixes.zip Arc.Generated.C17.caseArmsTbl).map fun (p, (_, k)) =>
+        renderFmt Arc.Generated.C17.caseWhenFmt.toList [col, p, like, col, toString k, guard, col, toString k]
+      (c, "CASE " ++ String.join arms ++ "ELSE " ++ call ++ " END")
+    | none => (c, "bad-op")
   | ["url", h] =>
-    if h == "NULL" then (c, "rep=NULL ext=NULL case=NULL") else
+    if h == "NULL" then (c, "rep=NULL ext=NULL caseR=NULL caseE=NULL") else
     match unhex h with
     | some b =>
-      (c, s!"rep={hex (regexReplace b)} ext={hex (regexExtract b)} case={hex (caseArms Arc.Generated.C17.caseArmsTbl b)}")
+      (c, s!"rep={hex (regexReplace b)} ext={hex (regexExtract b)} caseR={hex (caseGuarded true regexReplace Arc.Generated.C17.caseArmsTbl b)} caseE={hex (caseGuarded false regexExtract Arc.Generated.C17.caseArmsTbl b)}")
     | none => (c, "bad-op")
   | _ => (c, "bad-op")
 
